@@ -6073,6 +6073,23 @@ impl<'a, 'graph> Builder<'a, 'graph> {
     }
   }
 
+  /// Only one pending dynamic branch is kept per specifier and it remembers a
+  /// single referrer, so mark a jsr/npm dependency for this referrer up front.
+  fn mark_dep_of_pending_dynamic_branch(
+    &mut self,
+    specifier: &ModuleSpecifier,
+    range: &Range,
+    is_asset: bool,
+  ) {
+    if !is_asset
+      && matches!(specifier.scheme(), "jsr" | "npm")
+      && let Ok(load_specifier) =
+        self.parse_load_specifier_kind(specifier, Some(range))
+    {
+      self.maybe_mark_dep(&load_specifier, Some(range));
+    }
+  }
+
   fn mark_jsr_dep(
     &mut self,
     package_ref: &JsrPackageReqReference,
@@ -6767,6 +6784,7 @@ impl<'a, 'graph> Builder<'a, 'graph> {
               }
             });
           if dep.is_dynamic && !self.in_dynamic_branch {
+            self.mark_dep_of_pending_dynamic_branch(specifier, range, is_asset);
             let value = self
               .state
               .dynamic_branches
@@ -6812,6 +6830,7 @@ impl<'a, 'graph> Builder<'a, 'graph> {
               }
             });
           if dep.is_dynamic && !self.in_dynamic_branch {
+            self.mark_dep_of_pending_dynamic_branch(specifier, range, is_asset);
             self.state.dynamic_branches.insert(
               specifier.clone(),
               PendingDynamicBranch {
